@@ -92,6 +92,31 @@ func TestC03(t *testing.T) {
 				failRapid(rt, r, caseOf("C03", "doc", b, err), err)
 			}
 		})
+		// 2b. key twins: two keys of one object (and of two sibling objects) where the decoded
+		// text of one equals the raw spelling of the other - every (base, escape, tail) of the
+		// generator's twin family, both orders (key caches / interning keyed on raw bytes)
+		if e.enumStage("key-twins", "8 bases x 10 escapes x 4 tails: escaped-backslash spelling and escape spelling as keys of one object and of two sibling objects, both orders", true) {
+			idx := 0
+		twins:
+			for _, base := range []string{"", "a", "k", "p:", "dir", "x/y", "é", `q\\`} {
+				for _, esc := range []string{"n", "t", "b", "f", "r", "/", "u0041", "u00e9", `ud83d\ude00`, "uDC00"} {
+					for _, tail := range []string{"", "z", "ew", "1"} {
+						idx++
+						if !e.cfg.Mine(idx) {
+							continue
+						}
+						k1 := `"` + base + `\\` + esc + tail + `"` // decodes to a literal backslash + letters
+						k2 := `"` + base + `\` + esc + tail + `"`  // the escape itself
+						for _, doc := range []string{`{` + k1 + `:1,` + k2 + `:2}`, `{` + k2 + `:1,` + k1 + `:2}`, `[{` + k1 + `:1},{` + k2 + `:2}]`, `[{` + k2 + `:{}},{` + k1 + `:[]}]`,
+							`{"o":{` + k1 + `:1},"p":{` + k2 + `:2},"q":{` + k1 + `:3}}`} {
+							if !run("key-twins", []byte(doc)) {
+								break twins
+							}
+						}
+					}
+				}
+			}
+		}
 		// 3. sibling-size patterns and wide containers (size prediction, child-reader pool)
 		e.rapidStage("siblings", "rapid", e.cfg.N(1500, 100000), func(rt *rapid.T) {
 			var sb strings.Builder
